@@ -13,6 +13,7 @@ import Uds.Props.C03
     * did_write_read_back      a value written to a data identifier is read back equal through the same codec configuration
     * mem_write_read_back      bytes written to a memory range are read back identical (the two calls may use different widths)
     * download_reassembled     download + any block sequence (counter wraps past 0xFF) + exit = the original bytes at the address
+    * upload_streams_memory    upload of a range + enough pulls returns exactly the bytes the ECU holds there
     * *_survives_history       … and the read-back still holds after any interleaved sequence of calls (successful or failing)
                                that does not itself overwrite the identifier / the memory
 
@@ -767,6 +768,101 @@ theorem mem_survives_history (cfg : RigCfg) (e : Ecu) (a s : Int) (af mf af' mf'
     show (rigRun cfg (rigStep cfg e (.writeMem a s af mf data)).1 cs).mem = _
     rw [history_keeps_mem cfg _ cs hcs, hA]
   rw [rig_read_mem cfg e2 a s af' mf' ml' w' h2 hw' hs, hm, ← hl, memRead_write]
+
+
+/-! ## upload: request_upload, then transfer_data without data pulls the range back in blocks -/
+
+def xferOpenUp (addr size : Nat) : Xfer := { addr := addr, size := size, next := 1, buf := [], upload := true, sent := 0 }
+
+theorem svc35 : fromRequestId 0x35 = some ⟨"RequestUpload", 0x35, false, true⟩ := by decide
+theorem rsp75 : fromResponseId 0x75 = some ⟨"RequestUpload", 0x35, false, true⟩ := by decide
+
+theorem ecu_upload (e : Ecu) (ml : MemLoc) (w : Bytes) (dfi : UInt8) (hA : Uds.Props.C14.Width ml.alfidA) (hM : Uds.Props.C14.Width ml.alfidM) (h : ml.wire = .ok w) :
+    e.step (0x35 :: dfi :: w) = ({ e with xfer := some (xferOpenUp ml.address.toNat ml.size.toNat) }, [0x75, 0x20, 0x0F, 0xFF]) := by
+  obtain ⟨hd, _, _, _⟩ := Uds.Props.C14.wire_decodes ml w [] hA hM h
+  rw [List.append_nil] at hd
+  simp only [Ecu.step, Ecu.onXferReq, show ((0x35 : UInt8) == 0x2E) = false by decide, show ((0x35 : UInt8) == 0x22) = false by decide,
+    show ((0x35 : UInt8) == 0x3D) = false by decide, show ((0x35 : UInt8) == 0x23) = false by decide,
+    show ((0x35 : UInt8) == 0x34 || (0x35 : UInt8) == 0x35) = true by decide, Bool.false_eq_true, if_false, if_true, hd]
+  simp [xferOpenUp]
+
+theorem rig_upload (cfg : RigCfg) (e : Ecu) (a s : Int) (af mf : Option Int) (dfi : Nat) (ml : MemLoc) (w : Bytes)
+    (h1 : MemLoc.ready cfg a s af mf = .ok ml) (hw : ml.wire = .ok w) (hd : dfi < 256) :
+    rigStep cfg e (.xferReq true a s af mf dfi) = ({ e with xfer := some (xferOpenUp a.toNat s.toNat) }, .ok (.sd (.xfer 0x0FFF))) := by
+  obtain ⟨wa, wm, ha, hsz⟩ := ready_ok h1
+  have hreq : RCall.request cfg (.xferReq true a s af mf dfi) = .ok { service := fromRequestId 0x35, data := some ([UInt8.ofNat dfi] ++ w) } := by
+    simp [RCall.request, h1, requestXferMakeRequest, hw, packB, hd, bind, Except.bind, pure, Except.pure]
+  have hpay : ({ service := fromRequestId 0x35, data := some ([UInt8.ofNat dfi] ++ w) } : Request).getPayload none = .ok (0x35 :: UInt8.ofNat dfi :: w) := by
+    simp [Request.getPayload, svc35, packB, bind, Except.bind, pure, Except.pure]
+  have hstep := ecu_upload e ml w (UInt8.ofNat dfi) wa wm hw
+  rw [ha, hsz] at hstep
+  have hx := exchange_pos e _ _ _ _ [0x20, 0x0F, 0xFF] 0x75 hpay svc35 hstep (by decide) rsp75 (Or.inl (by simp))
+  rw [rigStep_ok cfg e _ _ _ _ hreq hx]
+  have : xferInterpret [0x20, 0x0F, 0xFF] = .ok (.xfer 0x0FFF) := by decide
+  simp [RCall.interpret, posResp, this, bind, Except.bind, pure, Except.pure]
+
+theorem ecu_pull (e : Ecu) (x : Xfer) (seq : UInt8) (hx : e.xfer = some x) (hu : x.upload = true) (hs : seq.toNat = x.next) :
+    e.step [0x36, seq] = ({ e with xfer := some { x with next := (x.next + 1) % 256, sent := x.sent + min upBlock (x.size - x.sent) } },
+      [0x76, seq] ++ memRead e.mem (x.addr + x.sent) (min upBlock (x.size - x.sent))) := by
+  simp only [Ecu.step, Ecu.onTransfer, show ((0x36 : UInt8) == 0x2E) = false by decide, show ((0x36 : UInt8) == 0x22) = false by decide,
+    show ((0x36 : UInt8) == 0x3D) = false by decide, show ((0x36 : UInt8) == 0x23) = false by decide,
+    show ((0x36 : UInt8) == 0x34 || (0x36 : UInt8) == 0x35) = false by decide, show ((0x36 : UInt8) == 0x36) = true by decide,
+    Bool.false_eq_true, if_false, if_true, hx, hs, hu, ne_eq, not_true_eq_false]
+
+/-- one pull: `transfer_data(n)` without data returns the next block of the range -/
+theorem rig_pull (cfg : RigCfg) (e : Ecu) (x : Xfer) (n : Nat) (hn : n < 256) (hx : e.xfer = some x) (hu : x.upload = true) (hs : n = x.next) :
+    rigStep cfg e (.simple (.transferData n none)) =
+      ({ e with xfer := some { x with next := (x.next + 1) % 256, sent := x.sent + min upBlock (x.size - x.sent) } },
+       .ok (.sd (.transferData n (memRead e.mem (x.addr + x.sent) (min upBlock (x.size - x.sent)))))) := by
+  have hv : validateInt (n : Int) 0 0xFF = .ok () := validateInt_ok.2 ⟨by omega, by omega⟩
+  have hreq : RCall.request cfg (.simple (.transferData n none)) = .ok (mkReq "TransferData" none (some ([UInt8.ofNat n] ++ []))) := by
+    simp [RCall.request, Entry.makeRequest, transferDataMakeRequest, hv, bind, Except.bind, pure, Except.pure]
+  obtain ⟨hpay, hsvc⟩ := payload_nosf' "TransferData" ([UInt8.ofNat n] ++ []) _ svcTD rfl (by decide)
+  have hstep := ecu_pull e x (UInt8.ofNat n) hx hu (by rw [toNat_ofNat_lt hn]; exact hs)
+  have hxc := exchange_pos e _ _ _ _ (UInt8.ofNat n :: memRead e.mem (x.addr + x.sent) (min upBlock (x.size - x.sent))) 0x76 hpay hsvc hstep (by decide) rsp76 (Or.inl (by simp))
+  rw [rigStep_ok cfg e _ _ _ _ hreq hxc]
+  simp [RCall.interpret, posResp, simpleClient, transferDataInterpret, guardPy, idx, toNat_ofNat_lt hn, bind, Except.bind, pure, Except.pure]
+
+/-- pull `k` blocks with consecutive counters; the concatenation of what came back -/
+def pullBlocks (cfg : RigCfg) (e : Ecu) (n : Nat) : Nat → Option (Ecu × Bytes)
+  | 0 => some (e, [])
+  | k + 1 =>
+    match (rigStep cfg e (.simple (.transferData n none))).2 with
+    | .ok (.sd (.transferData _ chunk)) =>
+      (pullBlocks cfg (rigStep cfg e (.simple (.transferData n none))).1 ((n + 1) % 256) k).map (fun p => (p.1, chunk ++ p.2))
+    | _ => none
+
+theorem pull_ok (cfg : RigCfg) (e : Ecu) (x : Xfer) (n k : Nat) (hx : e.xfer = some x) (hu : x.upload = true) (hn : n = x.next) (hn256 : n < 256)
+    (hle : x.sent ≤ x.size) :
+    ∃ e', pullBlocks cfg e n k = some (e', memRead e.mem (x.addr + x.sent) (min (k * upBlock) (x.size - x.sent))) ∧ e'.mem = e.mem ∧ e'.dids = e.dids := by
+  induction k generalizing e x n with
+  | zero => exact ⟨e, by simp [pullBlocks, memRead], rfl, rfl⟩
+  | succ k ih =>
+    have hstep := rig_pull cfg e x n hn256 hx hu hn
+    simp only [pullBlocks, hstep]
+    have hle' : x.sent + min upBlock (x.size - x.sent) ≤ x.size := by omega
+    obtain ⟨e', he', hm, hd⟩ := ih { e with xfer := some { x with next := (x.next + 1) % 256, sent := x.sent + min upBlock (x.size - x.sent) } }
+      { x with next := (x.next + 1) % 256, sent := x.sent + min upBlock (x.size - x.sent) } ((n + 1) % 256) rfl hu (by subst hn; rfl) (Nat.mod_lt _ (by omega)) hle'
+    refine ⟨e', ?_, hm, hd⟩
+    rw [he']
+    simp only [Option.map_some, Option.some.injEq, Prod.mk.injEq, true_and]
+    have hsplit : min ((k + 1) * upBlock) (x.size - x.sent) =
+        min upBlock (x.size - x.sent) + min (k * upBlock) (x.size - (x.sent + min upBlock (x.size - x.sent))) := by
+      simp only [upBlock]; omega
+    rw [hsplit, memRead_append]
+    congr 2
+    omega
+
+/-- **upload returns the stored bytes**: after `request_upload` of a range, pulling enough blocks returns exactly the bytes the ECU holds there -/
+theorem upload_streams_memory (cfg : RigCfg) (e : Ecu) (a s : Int) (af mf : Option Int) (dfi : Nat) (ml : MemLoc) (w : Bytes) (k : Nat)
+    (h1 : MemLoc.ready cfg a s af mf = .ok ml) (hw : ml.wire = .ok w) (hd : dfi < 256) (hk : s.toNat ≤ k * upBlock) :
+    ∃ e1 e2, rigStep cfg e (.xferReq true a s af mf dfi) = (e1, .ok (.sd (.xfer 0x0FFF))) ∧
+      pullBlocks cfg e1 1 k = some (e2, memRead e.mem a.toNat s.toNat) := by
+  have hA := rig_upload cfg e a s af mf dfi ml w h1 hw hd
+  obtain ⟨e2, h2, _, _⟩ := pull_ok cfg { e with xfer := some (xferOpenUp a.toNat s.toNat) } (xferOpenUp a.toNat s.toNat) 1 k rfl rfl rfl (by decide) (by simp [xferOpenUp])
+  refine ⟨_, e2, hA, ?_⟩
+  rw [h2]
+  simp only [xferOpenUp, Nat.add_zero, Nat.sub_zero, Nat.min_eq_right hk]
 
 
 /-! ## non-vacuity, and the excluded point -/
